@@ -587,6 +587,20 @@ def _out_keys(rng, shape, avoid, *, base_kind, assign, stream):
       keys[(j + 1) % 3] = SKIP
   elif r < 0.7:
     keys[rng.randrange(n_out)] = path(names[0] + 'n', names[3])
+  elif r < 0.85 and assign and stream and all(isinstance(rec, dict) for rec in stream):
+    # A non-first key that writes INTO a container the record already holds
+    # (copy-on-write along the path: the caller's nested objects stay intact).
+    dict_keys = [k for k, v in stream[0].items()
+                 if isinstance(k, str) and hk(k) not in avoid
+                 and all(isinstance(rec.get(k), dict) for rec in stream)]
+    list_keys = [k for k, v in stream[0].items()
+                 if isinstance(k, str) and hk(k) not in avoid
+                 and all(isinstance(rec.get(k), list)
+                         and len(rec[k]) == len(stream[0][k]) for rec in stream)]
+    del list_keys
+    j = rng.randrange(1, n_out)
+    if dict_keys:
+      keys[j] = path(rng.choice(dict_keys), names[3])
   return K(*keys, form=rng.choice(['tuple', 'tuple', 'list']))
 
 
